@@ -59,6 +59,7 @@ func (obj *ExponentialEstimator) Clone() *ExponentialEstimator {
   r := ExponentialEstimator{}
   r.ExponentialDistribution = obj.ExponentialDistribution.Clone()
   r.LambdaMax = obj.LambdaMax
+  r.x         = obj.x
   return &r
 }
 
